@@ -32,7 +32,7 @@ func init() {
 		},
 		Real:     []string{"immutable package (HAMT, builders, set)", "fp.Map / fp.Set wrappers incl. zero values", "seq/iterator/list ToMap/ToSet"},
 		Stub:     []string{"fp.Hashable (adversarial but lawful hashers)", "clients and their operation order (seeded scheduler)"},
-		Quick:    Budget{Runs: 12000, Wall: 50 * time.Second},
+		Quick:    Budget{Runs: 48000, Wall: 50 * time.Second},
 		Thorough: Budget{Runs: 1500000, Wall: 25 * time.Minute},
 		Exec:     execC03,
 	})
@@ -49,7 +49,22 @@ func (h fnHasher) Eqv(a, b int) bool { return a == b }
 func (h fnHasher) Hash(a int) uint32 { return h.f(a) }
 
 func c03Hasher(r *sim.Run) fp.Hashable[int] {
-	switch r.Choose(7, "hasher") {
+	switch r.Choose(9, "hasher") {
+	case 7, 8:
+		// digit hashers: the key's mixed-radix digits become the 5-bit fragments of successive trie levels, so that a
+		// chosen level (not only the root) gets few or many children: k%a at the root, (k/a)%b one level down, the
+		// rest two levels down; fragments >= 32 spill into the next level, values of b that do not divide evenly collide
+		a := []int{1, 2, 3, 4}[r.Choose(4, "digitA")]
+		b := []int{2, 3, 17, 20, 32}[r.Choose(5, "digitB")]
+		lossy := r.Choose(3, "digitLossy") == 0 // drop the top digit: full 32-bit collisions below the second level
+		r.Fault("hasher:digits")
+		return fnHasher{fmt.Sprintf("digits k%%%d | (k/%d)%%%d<<5 | rest<<10 (lossy=%v)", a, a, b, lossy), func(k int) uint32 {
+			h := uint32(k%a) | uint32((k/a)%b)<<5
+			if !lossy {
+				h |= uint32(k/(a*b)) << 10
+			}
+			return h
+		}}
 	case 0:
 		return fnHasher{"identity", func(k int) uint32 { return uint32(k) }}
 	case 1:
@@ -247,6 +262,15 @@ func (st *c03store) probes(old, nw *c03ver) {
 	if c.MaxDepth >= 3 {
 		r.Probe("depth>=3")
 	}
+	if c.BitmapDeep > 0 {
+		r.Probe("bitmap-node-below-root")
+	}
+	if c.HashArrayDeep > 0 {
+		r.Probe("hash-array-node-below-root")
+	}
+	if c.CollisionDeep > 0 {
+		r.Probe("collision-node-below-second-level")
+	}
 	if c.Foreign {
 		r.Probe("non-trie-base(zero-value route)")
 	}
@@ -262,6 +286,15 @@ func (st *c03store) probes(old, nw *c03ver) {
 	}
 	if o.HashArray > c.HashArray {
 		r.Probe("hash-array->bitmap")
+	}
+	if o.HashArrayDeep < c.HashArrayDeep {
+		r.Probe("bitmap->hash-array below root")
+	}
+	if o.HashArrayDeep > c.HashArrayDeep {
+		r.Probe("hash-array->bitmap below root")
+	}
+	if o.Bitmap > c.Bitmap && o.HashArrayDeep > 0 && c.HashArrayDeep > 0 {
+		r.Probe("bitmap node removed above a hash-array node")
 	}
 	if o.Collision < c.Collision {
 		r.Probe("collision-created")
@@ -608,11 +641,7 @@ func (st *c03store) drawOp(isSet bool, phase int) c03op {
 		})
 		op.mode = r.Choose(4, "remap")
 		if op.kind == moRemoved || op.kind == moConcatIter {
-			n := r.Choose(4, "nKeys")
-			op.ks = []int{}
-			for i := 0; i < n; i++ {
-				op.ks = append(op.ks, r.Choose(st.universe, "k"))
-			}
+			op.ks = st.drawKeys(r, 4)
 		}
 	} else {
 		op.kind = r.ChooseWith(soNSet, "setOp", func(g *sim.Rng) int {
@@ -630,21 +659,47 @@ func (st *c03store) drawOp(isSet bool, phase int) c03op {
 			return soConcat + g.Intn(5)
 		})
 		if op.kind == soConcat {
-			n := r.Choose(5, "nKeys")
-			op.ks = []int{}
-			for i := 0; i < n; i++ {
-				op.ks = append(op.ks, r.Choose(st.universe, "k"))
-			}
+			op.ks = st.drawKeys(r, 5)
 		}
 	}
 	return op
+}
+
+// drawKeys draws the key list of a multi-key operation: a few independent keys, or - one time in four - a whole
+// residue class of the key universe (or its complement). Whole classes fill and empty entire sub-tries at once, which
+// independent keys practically never do: a branch node loses all children but one, a level shrinks below a threshold
+// while its sibling stays wide.
+func (st *c03store) drawKeys(r *sim.Run, maxN int) []int {
+	ks := []int{}
+	if r.ChooseWith(4, "keyClass", func(g *sim.Rng) int {
+		if g.Intn(4) == 0 {
+			return 1 + g.Intn(3)
+		}
+		return 0
+	}) == 0 {
+		n := r.Choose(maxN, "nKeys")
+		for i := 0; i < n; i++ {
+			ks = append(ks, r.Choose(st.universe, "k"))
+		}
+		return ks
+	}
+	m := []int{2, 3, 4, 8, 16, 32}[r.Choose(6, "classMod")]
+	c := r.Choose(m, "classRes")
+	complement := r.Choose(3, "classComplement") == 0
+	for k := 0; k < st.universe; k++ {
+		if (k%m == c) != complement {
+			ks = append(ks, k)
+		}
+	}
+	r.Probe("whole-residue-class-operations")
+	return ks
 }
 
 func execC03(r *sim.Run) {
 	r.Case = "store"
 	st := &c03store{r: r}
 	st.h = c03Hasher(r)
-	st.universe = []int{12, 40, 72}[r.Choose(3, "universe")]
+	st.universe = []int{12, 40, 72, 96}[r.Choose(4, "universe")]
 	r.MixFingerprintS(st.h.(fnHasher).name)
 	r.Logf("hasher %s, universe %d", st.h.(fnHasher).name, st.universe)
 	// initial versions: at least one map and one set, from seeded constructors
